@@ -81,12 +81,12 @@ def un_image_len(t):
     return 8 if t[0] == 0 else 32 + sk_image_len(t[4:])
 
 # ------------------------------------------------------------------ states
-PATTERNS = ['ones', 'smallint', 'pow2', 'tenths']
+PATTERNS = ['ones', 'smallint', 'pow2', 'dyadic']     # dyadic weights only: non-dyadic streams can hit the C16 rounding finding while the state is built
 def weight(rng, pat):
     if pat == 'ones': return 1.0
     if pat == 'smallint': return float(rng.randint(1, 9))
     if pat == 'pow2': return 2.0 ** rng.randint(-6, 12)
-    return rng.randint(1, 60) / 10.0
+    return rng.randint(1, 400) / 8.0
 
 def sketch_op(rng, r, k, rf, gadget, n, pat):
     op = [1, r, k, rf, 1 if gadget else 0]
@@ -170,97 +170,77 @@ def gen_c10(rng, tier):
 
 REPL = [0x00, 0xFF, 0x7F, 0x80]
 
-def corrupt_ops(kind, r, img, rf, full, prelen):
-    ops = []
+def mutations(img, kind):
+    """single-byte mutations of the preamble (sketch 32 bytes, union 64 bytes incl. the gadget preamble) that do not ask for huge arrays"""
+    prelen = 32 if kind == 0 else 64
+    base = 0 if kind == 0 else 32
     for pos in range(min(prelen, len(img))):
         old = img[pos]
         for v in REPL + [(old + 1) % 256, (old - 1) % 256, old ^ 1, old ^ 0x80, old ^ 4, old ^ 0x40]:
             if v == old:
                 continue
             mut = list(img); mut[pos] = v
-            # k (sketch bytes 4..7, also the gadget's inside a union image): not above 2^20 with resize factor X1 unless the image is in full mode
-            base = 0 if kind == 0 else 32
-            if base + 4 <= pos < base + 8 and len(mut) >= base + 8:
-                k2 = int.from_bytes(bytes(mut[base + 4:base + 8]), 'little')
-                if k2 > 2 ** 20 and not full:
+            if len(mut) >= base + 8:
+                k2 = int.from_bytes(bytes(mut[base + 4:base + 8]), 'little'); rf2 = mut[base] >> 6
+                pre2 = mut[base] & 63; empty2 = mut[base + 3] & 4
+                # the readers allocate k + 1 slots (resize factor X1: always; full mode: once h + r == k) before the items are looked at:
+                # the serde family's known finding c11_corrupt_allocation_over_cap:varopt_*
+                if k2 > 2 ** 20 and (rf2 == 0 or (pre2 == 4 and not empty2)):
                     continue
-            if pos == base and (v >> 6) == 0 and not full:
-                k2 = int.from_bytes(bytes(mut[base + 4:base + 8]), 'little') if len(mut) >= base + 8 else 0
-                if k2 > 2 ** 20:
-                    continue
-            for path in (0, 1):
-                ops.append([5, kind, r, path, -1, pos, v, 0])
-    return ops
+            yield mut
+
+def wrap_images():
+    """full-mode images whose h + r equals k only modulo 2^32 (repaired readers reject them; the old ones wrote past their arrays)"""
+    out = []
+    for k, h in [(1, 3), (2, 5), (1, 2)]:
+        r = (k - h) % 2 ** 32
+        b = [4 | (3 << 6), 2, 13, 0] + le(k, 4) + le(k + 1, 8) + le(h, 4) + le(r, 4) + le(d2b(1.0), 8)
+        for _ in range(h): b += le(d2b(1.0), 8)
+        for i in range(h): b += le(i, 8)
+        out.append(b)
+    return out
 
 def gen_c11(rng, tier):
     cases = []
-    sts = [(k, rf, gad, n, pat) for (k, rf, gad, n, pat) in state_list(rng, tier) if k <= 9]
+    sts = [st for st in state_list(rng, tier) if st[0] <= 9]
     if tier == 'quick':
         sts = rng.sample(sts, 10) + [(1, 3, False, 0, 'ones'), (2, 0, True, 2, 'ones'), (2, 1, True, 7, 'smallint')]
     for ci, (k, rf, gad, n, pat) in enumerate(sts):
-        build = sketch_op(rng, 0, k, rf, gad, n, pat)
-        h_r = min(n, k)
-        L = 8 if n == 0 else 8 * (3 if n <= k else 4) + 8 * (min(n, k) if n <= k else 0) + 16 * k     # upper bound on the image length
-        ops = [build]
+        ops = [sketch_op(rng, 0, k, rf, gad, n, pat)]
+        L = 8 if n == 0 else 32 + 17 * k + 8                  # at least the image length; cuts beyond it read the whole image
         for cut in range(L):
             ops.append([5, 0, 0, 0, cut, -1, 0, 0]); ops.append([5, 0, 0, 1, cut, -1, 0, 0])
         cases.append(dict(id='vspre%d' % ci, ops=ops, tags=['prefixes', 'sketch'], kind='prefix'))
-        cases.append(dict(id='vscor%d' % ci, ops=[build], tags=['corrupt', 'sketch'], kind='corrupt', late=dict(kind=0, rf=rf, full=n > k, prelen=32)))
     for ci in range(6 if tier == 'quick' else 40):
         k = rng.choice([1, 2, 4]); n = rng.choice(fills(k))
         ops = [sketch_op(rng, 0, k, rng.randrange(4), False, n, rng.choice(PATTERNS)), sketch_op(rng, 1, 3, 3, False, rng.choice([2, 9]), 'smallint')]
         maxk = rng.choice([2, 4, 8])
-        srcs = [0, 1] if n else [0]
-        ops.append([2, 0, maxk] + srcs)
-        L = 8 + 24 + 32 + 17 * maxk + 8
-        pre = list(ops)
-        for cut in range(L):
+        ops.append([2, 0, maxk] + ([0, 1] if n else [0]))
+        for cut in range(32 + 32 + 17 * maxk + 8):
             ops.append([5, 1, 0, 0, cut, -1, 0, 0]); ops.append([5, 1, 0, 1, cut, -1, 0, 0])
         cases.append(dict(id='vupre%d' % ci, ops=ops, tags=['prefixes', 'union'], kind='prefix'))
-        cases.append(dict(id='vucor%d' % ci, ops=pre, tags=['corrupt', 'union'], kind='corrupt', late=dict(kind=1, rf=3, full=False, prelen=64)))
-    # corruption needs the image: it is written by the independent encoder from a random content instead (the content is known here)
-    out = []
-    for c in cases:
-        if c['kind'] != 'corrupt':
-            out.append(c); continue
+    # corruption: the image is written by the independent encoder from a random content, mutated here, and given to both readers
     for ci in range(14 if tier == 'quick' else 120):
         kind = ci % 2
+        cont = rand_content(rng, gadget=(True if kind else None))
+        while cont['k'] > 1000:
+            cont = rand_content(rng, gadget=(True if kind else None))
         if kind == 0:
-            cont = rand_content(rng)
-            while cont['k'] > 1000:
-                cont = rand_content(rng)
-            img = py_enc_sk(cont); full = len(cont['ritems']) > 0; rf = cont['rf']; prelen = 32
+            img = py_enc_sk(cont)
         else:
-            g = rand_content(rng, gadget=True)
-            while g['k'] > 1000:
-                g = rand_content(rng, gadget=True)
-            u = dict(n=rng.choice([1, 99]), numer=d2b(2.5), denom=rng.choice([0, 4]), maxk=rng.choice([4, 16]), gadget=g)
-            img = py_enc_un(u); full = len(g['ritems']) > 0; rf = g['rf']; prelen = 64
+            img = py_enc_un(dict(n=rng.choice([1, 99]), numer=d2b(2.5), denom=rng.choice([0, 4]), maxk=rng.choice([4, 16]), gadget=cont))
         ops = []
-        for pos in range(min(prelen, len(img))):
-            old = img[pos]
-            for v in REPL + [(old + 1) % 256, (old - 1) % 256, old ^ 1, old ^ 0x80, old ^ 4, old ^ 0x40]:
-                if v == old:
-                    continue
-                mut = list(img); mut[pos] = v
-                base = 0 if kind == 0 else 32
-                if len(mut) >= base + 8:
-                    k2 = int.from_bytes(bytes(mut[base + 4:base + 8]), 'little'); rf2 = mut[base] >> 6
-                    if k2 > 2 ** 20 and rf2 == 0:
-                        continue
-                    if k2 > 2 ** 24:
-                        # the readers allocate k + 1 slots before the items are looked at when the counts are consistent (serde family's known finding)
-                        pre2 = mut[base] & 63
-                        if pre2 == 4 or (mut[base + 3] & 4):
-                            pass        # full mode needs h + r == k, empty images build a small array unless rf == 0
-                        else:
-                            continue
-                if kind == 1 and 4 <= pos < 8:
-                    pass                # max_k of the union: only range-checked
-                ops.append([3, kind, 0] + mut); ops.append([3, kind, 1] + mut)
+        for mut in mutations(img, kind):
+            ops.append([3, kind, 0] + mut); ops.append([3, kind, 1] + mut)
         for j in range(0, len(ops), 120):
-            out.append(dict(id='vcor%d_%d' % (ci, j), ops=ops[j:j + 120], tags=['corrupt', 'union' if kind else 'sketch'], kind='corrupt'))
-    return out
+            cases.append(dict(id='vcor%d_%d' % (ci, j), ops=ops[j:j + 120], tags=['corrupt', 'union' if kind else 'sketch'], kind='corrupt'))
+    ops = []
+    for b in wrap_images():
+        ops += [[3, 0, 0] + b, [3, 0, 1] + b]
+        u = [4, 2, 14, 0] + le(8, 4) + le(5, 8) + le(d2b(1.0), 8) + le(1, 8) + b
+        ops += [[3, 1, 0] + u, [3, 1, 1] + u]
+    cases.append(dict(id='vswrap', ops=ops, tags=['corrupt', 'h+r-wrap'], kind='wrap'))
+    return cases
 
 # ------------------------------------------------------------------ oracle
 def oracle(case, irecs, mrecs):
@@ -274,6 +254,8 @@ def oracle(case, irecs, mrecs):
         if op[0] in (1, 2):
             if R in ([-4], [-5], [-7]):
                 bad('varopt_bytes_stream_size', 'serialize(bytes) / serialize(stream) / get_serialized_size_bytes / header form disagree (%s)' % R, i)
+            elif R == [-1] and 1 <= op[2] <= 2 ** 31 - 2 and (op[0] == 1 or all(r in sk for r in op[3:])):
+                bad('varopt_serialize_threw', 'building or serializing a valid %s threw' % ('sketch' if op[0] == 1 else 'union'), i)
             elif E is not None:
                 (sk if op[0] == 1 else un)[op[1]] = (E, R)
                 L = sk_image_len(E) if op[0] == 1 else un_image_len(E)
@@ -299,6 +281,8 @@ def oracle(case, irecs, mrecs):
             elif pos < 0 and 0 <= cut < L:
                 if R != [-1]:
                     bad('varopt_prefix_accepted', 'path %d: strict prefix of length %d of a %d-byte %s image accepted' % (path, cut, L, 'union' if kind else 'sketch'), i)
+        if op[0] == 3 and case.get('kind') == 'wrap' and R != [-1]:
+            bad('varopt_hr_sum_wrap', 'a full-mode image with h + r == k only modulo 2^32 is accepted', i)
         if op[0] == 3 and case.get('kind') == 'doc':
             exp = case['expect']
             want = ([1, 1] + exp) if op[2] == 0 else ([1, case['imglen'], 1] + exp)
@@ -325,5 +309,15 @@ RULE_C11 = ('every strict prefix of sketch and union images on both reader paths
             'corrupted k values that make the reader allocate more than 2^20 slots before looking at the items are left to the serde family (known finding); non-trivial = every case')
 
 MUTATIONS = '''
- (filled in after the mutation runs)
+ scratch worktree = /repo main + fixes/11_varopt_hr_sum_wrap.patch, VERIF_SEED=1, family run alone for C09 and C11 (C10 contains the C09 cases):
+ C1  serialize(bytes) writes r_ before h_                                  -> varopt_bytes_stream_size (C09, C11)
+ C2  GADGET_FLAG_MASK = 64 (writer and readers consistently)               -> varopt_documented_layout + image != Coq encoder (C09, C11)
+ C3  deserialize(bytes) without the size check before the marks            -> ASan heap-buffer-overflow on the prefixes that end inside the marks (C11)
+ C4  deserialize(istream) without the weight > 0 check                     -> model decoder rejects, reader accepts (C11 corrupted weights)
+ C5  get_serialized_size_bytes forgets the partial marks byte              -> varopt_serialize_threw (C09), correspondence (C11)
+ C6  union numerator / denominator swapped in both writers and both readers -> varopt_documented_layout (C09, C11)
+ C8  validate_and_get_target_size without the n == h check (warm-up)       -> model decoder rejects, reader accepts; ASan (C11)
+ C9  readers keep one bit of the resize factor                             -> varopt_roundtrip (C09, C11)
+ C10 the unrepaired uint32 h + r == k check                                -> ASan heap-buffer-overflow WRITE on the wrap images (C11)
+ harmless, exit 0 on both: H1 check_family... before check_preamble_longs in both readers; H2 weights written one by one instead of one block copy
 '''
